@@ -903,7 +903,7 @@ Lemma only_crlf_all t : forallb is_crlf t = true -> only_crlf t = true.
 Proof. apply only_crlf_fuel_all. Qed.
 
 (* ---- whole inputs ------------------------------------------------------------------------------------------- *)
-Definition segx_ok (x : lsegx) : Prop :=
+Definition segx_ok_enc (x : lsegx) : Prop :=
   let s := ls_seg x in
   s <> [] /\ Forall elem_ok s /\ seg_name s <> [] /\
   (ls_cr x = true -> seg = [LF]) /\
@@ -931,7 +931,7 @@ Proof.
   cbn [flat_map]. rewrite flat_map_app, IH, enc_segx_pieces. reflexivity.
 Qed.
 
-Lemma pieces_sealed x : segx_ok x -> Forall (sealed Ps) (pieces x).
+Lemma pieces_sealed x : segx_ok_enc x -> Forall (sealed Ps) (pieces x).
 Proof.
   intros (Hne & Hel & _ & Hcr & _ & _ & Hbl & _). unfold pieces. apply Forall_app. split.
   - apply Forall_forall. intros p Hp. apply in_map_iff in Hp as (b & <- & Hin).
@@ -967,7 +967,7 @@ Proof.
   - intros _. exists a. split; [left; reflexivity|exact Ea].
 Qed.
 
-Lemma read_tokens_pieces x rest : segx_ok x ->
+Lemma read_tokens_pieces x rest : segx_ok_enc x ->
   read_tokens c (map (fun p => p ++ seg) (pieces x) ++ rest) =
   bind (read_tokens c rest) (fun l => Ok (exp_seg c (ls_seg x) :: l)).
 Proof.
@@ -990,7 +990,7 @@ Proof.
       apply in_or_app. right. exact Hin.
 Qed.
 
-Lemma read_tokens_all segs : Forall segx_ok segs ->
+Lemma read_tokens_all segs : Forall segx_ok_enc segs ->
   read_tokens c (map (fun p => p ++ seg) (flat_map pieces segs)) =
   Ok (map (fun x => exp_seg c (ls_seg x)) segs).
 Proof.
@@ -1002,13 +1002,13 @@ Proof.
   reflexivity.
 Qed.
 
-Lemma Forall_flat_map_sealed segs : Forall segx_ok segs -> Forall (sealed Ps) (flat_map pieces segs).
+Lemma Forall_flat_map_sealed segs : Forall segx_ok_enc segs -> Forall (sealed Ps) (flat_map pieces segs).
 Proof.
   induction segs as [|x segs IH]; intro Hall; [constructor|].
   inversion Hall; subst. cbn [flat_map]. apply Forall_app. split; [apply pieces_sealed; assumption|auto].
 Qed.
 
-Lemma roundtrip segs inp : Forall segx_ok segs ->
+Lemma roundtrip_enc segs inp : Forall segx_ok_enc segs ->
   (if c_ignore_crlf c then strip_crlf inp else inp) = edi_encode c segs ->
   nv_read_all c inp = Ok (map (fun x => exp_seg c (ls_seg x)) segs).
 Proof.
@@ -1182,12 +1182,163 @@ Proof.
   rewrite IH by (intros y Hy; apply Hn; right; exact Hy). reflexivity.
 Qed.
 
+Lemma full_roundtrip_enc segs inp sname decls : Forall segx_ok_enc segs ->
+  (forall x, In x segs -> E (seg_name (ls_seg x)) = sname) ->
+  (if c_ignore_crlf c then strip_crlf inp else inp) = edi_encode c segs ->
+  full_read_all c sname decls inp = Ok (exp_full decls (map ls_seg segs)).
+Proof.
+  intros Hall Hn Hin. unfold full_read_all. rewrite (roundtrip_enc segs inp Hall Hin). cbn [bind].
+  apply full_results_enc. exact Hn.
+Qed.
+
+(* ---- "no CR before an LF delimiter", from the logical values ----------------------------------------- *)
+Definition last_rep (s : lseg) : lrep := last (last s []) [].
+Definition last_val (s : lseg) : bytes := last (last_rep s) [].
+(* the delimiter that stands right before the last value of the segment *)
+Definition pre_delim (s : lseg) : bytes :=
+  if 2 <=? length (last_rep s) then comp
+  else if 2 <=? length (last s []) then rep
+  else if 2 <=? length s then elem else [].
+(* the encoded segment does not end with CR: its last value does not, and if that value is empty
+   the delimiter before it does not *)
+Definition no_cr_end (s : lseg) : Prop :=
+  ~ ends_with_cr (last_val s) /\ (last_val s = [] -> ~ ends_with_cr (pre_delim s)).
+
+Lemma has_suffix_cr t : has_suffix t [CR] = true <-> ends_with_cr t.
+Proof.
+  unfold has_suffix, ends_with_cr. cbn [rev app]. split.
+  - intro Hp. apply has_prefix_spec in Hp as [r Hr]. exists (rev r).
+    rewrite <- (rev_involutive t), Hr. cbn [app rev]. reflexivity.
+  - intros [u ->]. rewrite rev_unit. cbn [has_prefix]. rewrite byte_eqb_refl. destruct (rev u); reflexivity.
+Qed.
+
+Lemma ends_cr_app_r a b : b <> [] -> ends_with_cr (a ++ b) -> ends_with_cr b.
+Proof.
+  intros Hb [u Hu]. destruct (@exists_last _ b Hb) as (b' & z & ->).
+  rewrite app_assoc in Hu. apply app_inj_tail in Hu as [_ ->]. exists b'. reflexivity.
+Qed.
+
+Lemma E_last d : ends_with_cr (E d) -> ends_with_cr d.
+Proof.
+  intros [u Hu]. rewrite E_units in Hu. destruct (explode_ok d) as [Hok Hcat].
+  destruct (explode d) as [|w0 r0] eqn:Ex; [destruct u; discriminate|].
+  assert (Hne : w0 :: r0 <> []) by discriminate.
+  destruct (@exists_last _ (w0 :: r0) Hne) as (us' & w & Hus). rewrite Hus in *.
+  apply units_ok_app_r in Hok as (Hwne & _).
+  destruct (@exists_last _ w Hwne) as (w' & z & ->).
+  rewrite EU_app, EU_cons in Hu. cbn [EU enc_units flat_map] in Hu. rewrite app_nil_r, !app_assoc in Hu.
+  apply app_inj_tail in Hu as [_ ->]. exists (concat us' ++ w'). rewrite <- Hcat, concat_app. cbn [concat].
+  rewrite app_nil_r, app_assoc. reflexivity.
+Qed.
+
+Lemma join_nil_inv z ps : join z ps = [] -> ps <> [] -> (z = [] -> length ps = 1) -> ps = [[]].
+Proof.
+  intros Hj Hne Hz. destruct ps as [|p [|q ps]]; [congruence|cbn [join] in Hj; subst; reflexivity|].
+  exfalso. change (join z (p :: q :: ps)) with (p ++ z ++ join z (q :: ps)) in Hj.
+  apply app_eq_nil in Hj as [_ Hj]. apply app_eq_nil in Hj as [Hzn _]. specialize (Hz Hzn). simpl in Hz. lia.
+Qed.
+
+Lemma join_ends z ps : ps <> [] -> (z = [] -> length ps = 1) -> ends_with_cr (join z ps) ->
+  ends_with_cr (last ps []) \/ (last ps [] = [] /\ 2 <= length ps /\ ends_with_cr z).
+Proof.
+  induction ps as [|p ps IH]; intros Hne Hz He; [congruence|].
+  destruct ps as [|q ps]; [left; exact He|].
+  change (join z (p :: q :: ps)) with (p ++ z ++ join z (q :: ps)) in He.
+  change (last (p :: q :: ps) []) with (last (q :: ps) []).
+  assert (Hzne : z <> []) by (intro Hzn; specialize (Hz Hzn); simpl in Hz; lia).
+  destruct (list_eq_dec Byte.byte_eq_dec (join z (q :: ps)) []) as [Hj|Hj].
+  - right. apply join_nil_inv in Hj; [|discriminate|congruence]. inversion Hj; subst.
+    split; [reflexivity|]. split; [simpl; lia|].
+    rewrite app_nil_r in He. apply (ends_cr_app_r p z Hzne He).
+  - rewrite app_assoc in He. apply ends_cr_app_r in He; [|exact Hj].
+    destruct (IH ltac:(discriminate) ltac:(congruence) He) as [Hl|(Hl & Hlen & Hzc)]; [left; exact Hl|].
+    right. split; [exact Hl|]. split; [simpl in *; lia|exact Hzc].
+Qed.
+
+Lemma last_map {A B} (f : A -> B) l a b : l <> [] -> last (map f l) b = f (last l a).
+Proof.
+  induction l as [|x l IH]; intro Hne; [congruence|]. destruct l as [|y l]; [reflexivity|].
+  change (last (map f (x :: y :: l)) b) with (last (map f (y :: l)) b).
+  change (last (x :: y :: l) a) with (last (y :: l) a). apply IH. discriminate.
+Qed.
+
+Lemma last_in {A} (l : list A) a : l <> [] -> In (last l a) l.
+Proof.
+  induction l as [|x l IH]; intro Hne; [congruence|]. destruct l as [|y l]; [left; reflexivity|].
+  right. apply IH. discriminate.
+Qed.
+
+Lemma enc_no_cr s : s <> [] -> Forall elem_ok s -> no_cr_end s -> has_suffix (enc_seg c s) [CR] = false.
+Proof.
+  intros Hne Hel [Hv Hpre]. destruct (has_suffix (enc_seg c s) [CR]) eqn:Hs; [|reflexivity]. exfalso.
+  apply has_suffix_cr in Hs. unfold enc_seg in Hs. fold elem in Hs.
+  pose proof (last_in s [] Hne) as Hein. rewrite Forall_forall in Hel.
+  destruct (Hel _ Hein) as (Hene & Heone & Hrs). rewrite Forall_forall in Hrs.
+  pose proof (last_in (last s []) [] Hene) as Hrin. fold (last_rep s) in Hrin.
+  destruct (Hrs _ Hrin) as (Hrne & Hrone & _).
+  assert (Helem_ne : elem <> []) by (destruct Hcfg as (_ & He & _); exact He).
+  (* an empty encoded repetition / element has exactly one (empty) member *)
+  assert (Hrep_nil : enc_rep c (last_rep s) = [] -> length (last_rep s) = 1 /\ last_val s = []).
+  { unfold enc_rep. fold comp. change (escape (heads (specials c)) (optb (c_rel c))) with E. intro Hj.
+    apply join_nil_inv in Hj; [|apply map_nonempty; exact Hrne|rewrite map_length; exact Hrone].
+    unfold last_val. destruct (last_rep s) as [|v [|v' r]]; try discriminate. cbn in Hj |- *.
+    injection Hj as Hv0. apply E_nil_inv in Hv0. auto. }
+  assert (Helem_nil : enc_elem c (last s []) = [] ->
+            length (last s []) = 1 /\ length (last_rep s) = 1 /\ last_val s = []).
+  { unfold enc_elem. fold rep. intro Hj.
+    apply join_nil_inv in Hj; [|apply map_nonempty; exact Hene|rewrite map_length; exact Heone].
+    unfold last_rep in *. destruct (last s []) as [|r0 [|r1 e]]; try discriminate. cbn in Hj, Hrep_nil |- *.
+    injection Hj as Hr0. destruct (Hrep_nil Hr0). auto. }
+  destruct (join_ends elem (map (enc_elem c) s)) as [Hl|(Hl & Hlen & Hz)];
+    [apply map_nonempty; exact Hne|congruence|exact Hs| |].
+  - rewrite (last_map _ s []) in Hl by exact Hne. unfold enc_elem in Hl. fold rep in Hl.
+    destruct (join_ends rep (map (enc_rep c) (last s []))) as [Hl2|(Hl2 & Hlen2 & Hz2)];
+      [apply map_nonempty; exact Hene|rewrite map_length; exact Heone|exact Hl| |].
+    + rewrite (last_map _ (last s []) []) in Hl2 by exact Hene. fold (last_rep s) in Hl2.
+      unfold enc_rep in Hl2. fold comp in Hl2. change (escape (heads (specials c)) (optb (c_rel c))) with E in Hl2.
+      destruct (join_ends comp (map E (last_rep s))) as [Hl3|(Hl3 & Hlen3 & Hz3)];
+        [apply map_nonempty; exact Hrne|rewrite map_length; exact Hrone|exact Hl2| |].
+      * rewrite (last_map _ (last_rep s) []) in Hl3 by exact Hrne. apply E_last in Hl3. apply Hv. exact Hl3.
+      * rewrite (last_map _ (last_rep s) []) in Hl3 by exact Hrne. apply E_nil_inv in Hl3.
+        apply (Hpre Hl3). unfold pre_delim. rewrite map_length in Hlen3.
+        assert (2 <=? length (last_rep s) = true) as -> by (apply Nat.leb_le; exact Hlen3). exact Hz3.
+    + rewrite (last_map _ (last s []) []) in Hl2 by exact Hene. fold (last_rep s) in Hl2.
+      destruct (Hrep_nil Hl2) as [Hone Hlv]. apply (Hpre Hlv). unfold pre_delim. rewrite map_length in Hlen2.
+      rewrite Hone. change (2 <=? 1) with false. cbn iota. assert (2 <=? length (last s []) = true) as -> by (apply Nat.leb_le; exact Hlen2).
+      exact Hz2.
+  - rewrite (last_map _ s []) in Hl by exact Hne. destruct (Helem_nil Hl) as (H1 & H2 & Hlv).
+    apply (Hpre Hlv). unfold pre_delim. rewrite map_length in Hlen. rewrite H1, H2. change (2 <=? 1) with false. cbn iota.
+    assert (2 <=? length s = true) as -> by (apply Nat.leb_le; exact Hlen). exact Hz.
+Qed.
+
+(* the conditions on a logical segment, all on the logical values *)
+Definition segx_ok (x : lsegx) : Prop :=
+  let s := ls_seg x in
+  s <> [] /\ Forall elem_ok s /\ seg_name s <> [] /\
+  (ls_cr x = true -> seg = [LF]) /\
+  (seg = [LF] -> no_cr_end s) /\
+  (ls_blanks x <> [] -> forallb is_crlf seg = true) /\
+  (In true (ls_blanks x) -> seg = [LF]) /\
+  (forallb is_crlf seg = true -> exists b, In b (seg_name s) /\ is_crlf b = false).
+
+Lemma segx_ok_enc_of x : segx_ok x -> segx_ok_enc x.
+Proof.
+  intros (H1 & H2 & H3 & H4 & H5 & H6 & H7 & H8). repeat split; try assumption.
+  intro Hs. apply enc_no_cr; auto.
+Qed.
+
+Lemma roundtrip segs inp : Forall segx_ok segs ->
+  (if c_ignore_crlf c then strip_crlf inp else inp) = edi_encode c segs ->
+  nv_read_all c inp = Ok (map (fun x => exp_seg c (ls_seg x)) segs).
+Proof.
+  intros Hall. apply roundtrip_enc. eapply Forall_impl; [|exact Hall]. intros x. apply segx_ok_enc_of.
+Qed.
+
 Lemma full_roundtrip segs inp sname decls : Forall segx_ok segs ->
   (forall x, In x segs -> E (seg_name (ls_seg x)) = sname) ->
   (if c_ignore_crlf c then strip_crlf inp else inp) = edi_encode c segs ->
   full_read_all c sname decls inp = Ok (exp_full decls (map ls_seg segs)).
 Proof.
-  intros Hall Hn Hin. unfold full_read_all. rewrite (roundtrip segs inp Hall Hin). cbn [bind].
-  apply full_results_enc. exact Hn.
+  intros Hall. apply full_roundtrip_enc. eapply Forall_impl; [|exact Hall]. intros x. apply segx_ok_enc_of.
 Qed.
 End RT.
